@@ -951,7 +951,9 @@ fn encode_template_to_native_script(
                         some.get("at_least").unwrap()
                     {
                         if let Some(n) = at_least.as_u64() {
-                            n as u32
+                            // the count is a 32-bit number on the wire: a larger one is an error, not its low 32 bits
+                            <u32 as std::convert::TryFrom<u64>>::try_from(n)
+                                .map_err(|_| JsError::from_str("at_least does not fit in 32 bits"))?
                         } else {
                             return Err(JsError::from_str("at_least must be an integer"));
                         }
